@@ -323,7 +323,7 @@ def _roles(db):
     return run, tasks, wclo | tclo
 
 
-@rule("R-LOCKSET", 5, "every location shared between the producer and the workers (pool state, and everything a queued task "
+@rule("R-LOCKSET", 3, "every location shared between the producer and the workers (pool state, and everything a queued task "
                       "shares with the building constructor) is accessed under one common lock")
 def r_lockset(db, rep):
     C = ctx(db)
